@@ -7,7 +7,9 @@ import (
 	"runtime"
 	"runtime/debug"
 	"strings"
+	"sync"
 	"sync/atomic"
+	"time"
 
 	flyt "github.com/mark3labs/flyt"
 )
@@ -434,6 +436,24 @@ func runC07(c *Cfg) {
 		runBatchRace(c, "C07")
 		return
 	}
+	// items that carry equal payloads are still separate items: each one is processed, also while an equal one is in flight
+	for _, cc := range []int{0, 2, 3, 8} {
+		for _, kind := range []string{"ints", "strings", "results", "any"} {
+			if !c.Mine(cc) {
+				continue
+			}
+			for rep := 0; rep < 3; rep++ {
+				n, calls, distinct, lenR := dupPayloadRun(kind, cc)
+				r.Eval()
+				r.Count("dup_payload.runs", 1)
+				if calls != n || distinct != n || lenR != n {
+					r.Violate("C07", "C07:equal-items-not-processed-individually", fmt.Sprintf("%d items of which several carry the same payload (%s, concurrency %d): exec ran %d times, %d distinct outcomes in %d slots — every item is processed exactly once, none is skipped because an equal one is being processed", n, kind, cc, calls, distinct, lenR), map[string]any{"family": "duplicate-payloads", "kind": kind, "c": cc, "n": n})
+					break
+				}
+			}
+			r.Nontrivial(fmt.Sprintf("dup %s %d", kind, cc))
+		}
+	}
 	nr := c.Pick(6000, 300000)
 	gatedLoop(c, nr, func(i int) *BatchCase {
 		rg := c.Rng("c07", i)
@@ -456,6 +476,11 @@ func runC07(c *Cfg) {
 			cs.SleepUs = 20
 		}
 		cs.CtxLike = rg.IntN(4) == 0 // per-attempt timeouts: ordinary failures as far as the batch is concerned
+		cs.TempErrs = !cs.CtxLike && rg.IntN(5) == 0
+		if i%10 == 3 && budget >= 2 && !cs.Gated {
+			cs.WaitMs, cs.SleepUs = 1+rg.IntN(2), 300 // items sit in retry waits while siblings fail for good: every item still gets its whole budget and its fallback
+			cs.Family = "scripts-with-retry-wait"
+		}
 		if i%9 == 5 && cs.Shape == "results" {
 			cs.Shape, cs.ExecStyle = "results-with-errors", "result" // items that arrive as error Results are processed like any other
 		}
@@ -595,11 +620,94 @@ func runC02Batch(c *Cfg) {
 	}, "C02")
 }
 
+// nestedStopRun: an outer continue-mode batch (concurrency oc) whose every item runs an inner STOP-mode batch
+// (concurrency ic <= 1, n items, item f fails) with the context it was given. Returns, per outer item, the inner items executed.
+func nestedStopRun(oc, ic, n, f int) (executed [][]int, successBehind int) {
+	outerN := 3
+	executed = make([][]int, outerN)
+	var mu sync.Mutex
+	inner := func(o int) flyt.Node {
+		return flyt.NewBatchNode().WithBatchConcurrency(ic).WithBatchErrorHandling(false).
+			WithPrepFunc(func(ctx context.Context, s *flyt.SharedStore) ([]flyt.Result, error) {
+				r := make([]flyt.Result, n)
+				for i := range r {
+					r[i] = flyt.NewResult(i)
+				}
+				return r, nil
+			}).
+			WithExecFuncAny(func(ctx context.Context, v any) (any, error) {
+				i := v.(int)
+				mu.Lock()
+				executed[o] = append(executed[o], i)
+				mu.Unlock()
+				if i == f {
+					return nil, fmt.Errorf("inner item %d fails", i)
+				}
+				return i, nil
+			}).
+			WithPostFunc(func(ctx context.Context, s *flyt.SharedStore, items, results []flyt.Result) (flyt.Action, error) {
+				for i := f + 1; i < len(results); i++ {
+					if !results[i].IsError() {
+						mu.Lock()
+						successBehind++
+						mu.Unlock()
+					}
+				}
+				return "done", nil
+			})
+	}
+	outer := flyt.NewBatchNode().WithBatchConcurrency(oc).
+		WithPrepFunc(func(ctx context.Context, s *flyt.SharedStore) ([]flyt.Result, error) {
+			r := make([]flyt.Result, outerN)
+			for i := range r {
+				r[i] = flyt.NewResult(i)
+			}
+			return r, nil
+		}).
+		WithExecFuncAny(func(ctx context.Context, v any) (any, error) {
+			_, err := flyt.Run(ctx, inner(v.(int)), flyt.NewSharedStore())
+			return v, err
+		})
+	func() {
+		defer func() { recover() }()
+		_, _ = flyt.Run(context.Background(), outer, flyt.NewSharedStore())
+	}()
+	return
+}
+
 func runC09(c *Cfg) {
 	r := c.Rep
 	if RaceEnabled {
 		runBatchRace(c, "C09")
 		return
+	}
+	// a stop-mode batch halts also when it runs inside an item of another (continue-mode) batch
+	for _, oc := range []int{0, 2} {
+		for _, ic := range []int{0, 1} {
+			for _, n := range []int{3, 6} {
+				for f := 0; f < n-1; f++ {
+					if !c.Mine(oc + ic + n + f) {
+						continue
+					}
+					ex, sb := nestedStopRun(oc, ic, n, f)
+					r.Eval()
+					r.Count("nested_stop.runs", 1)
+					nc := map[string]any{"family": "stop-batch-inside-continue-batch", "outer_c": oc, "inner_c": ic, "n": n, "fail_at": f}
+					for o, items := range ex {
+						for _, it := range items {
+							if it > f {
+								r.Violate("C09", "C09:nested-stop-batch-does-not-halt", fmt.Sprintf("a stop-mode batch (concurrency %d, %d items, item %d fails) run from item %d of a continue-mode batch (concurrency %d): inner item %d, behind the failing one, was executed (executed: %v)", ic, n, f, o, oc, it, items), nc)
+								break
+							}
+						}
+					}
+					if sb > 0 {
+						r.Violate("C09", "C09:nested-stop-batch-success-behind-failure", fmt.Sprintf("stop-mode batch inside a continue-mode batch: %d slots behind the failing item %d are reported as successes", sb, f), nc)
+					}
+					r.Nontrivial(fmt.Sprintf("ns %d %d %d %d", oc, ic, n, f))
+				}
+			}
+		}
 	}
 	ns := []int{1, 2, 5, 16}
 	if c.Thorough() {
@@ -1004,7 +1112,16 @@ func dupPayloadRun(kind string, cc int) (n, calls, distinct, lenR int) {
 	n = len(vals)
 	var callCtr atomic.Int64
 	var got []flyt.Result
-	exec := func(ctx context.Context, v any) (any, error) { return int(callCtr.Add(1)), nil }
+	var inflight atomic.Int32
+	exec := func(ctx context.Context, v any) (any, error) {
+		// stay inside exec until another item's exec overlaps (or 3 ms have passed): equal items are then in flight together
+		inflight.Add(1)
+		for t0 := time.Now(); inflight.Load() < 2 && time.Since(t0) < 3*time.Millisecond; {
+			runtime.Gosched()
+		}
+		defer inflight.Add(-1)
+		return int(callCtr.Add(1)), nil
+	}
 	post := func(ctx context.Context, s *flyt.SharedStore, items, results []flyt.Result) (flyt.Action, error) {
 		got = append([]flyt.Result(nil), results...)
 		return "done", nil
